@@ -160,7 +160,11 @@ func (s *c19src) Fetch(ctx context.Context, br blob.Ref) (io.ReadCloser, uint32,
 	case "corrupt":
 		ct.ev(fmt.Sprintf("EFetch %d FCorrupt", b.id), fmt.Sprintf("fetch #%d: corrupt bytes", b.id))
 		bad := []byte(b.content)
-		bad[len(bad)/2] ^= 0x20
+		if len(bad) == 0 {
+			bad = []byte("x")
+		} else {
+			bad[len(bad)/2] ^= 0x20
+		}
 		return io.NopCloser(bytes.NewReader(bad)), uint32(len(bad)), nil
 	}
 	rc, size, err := ct.src.Fetch(ctx, br)
@@ -433,7 +437,7 @@ func (ct *c19ctl) settle(max time.Duration) {
 }
 
 func runC19(c *ctx) {
-	c.rep.Rule = "scenarios over a sync handler created by CreateHandler(\"sync\") on instrumented source, destination and queue (shared rows survive restarts): 6-40 uploads (fresh, repeated, two concurrent uploads of one blob with the first one's queue.Set held), " +
+	c.rep.Rule = "scenarios over a sync handler created by CreateHandler(\"sync\") on instrumented source, destination and queue (shared rows survive restarts): 6-40 uploads (fresh, repeated, the zero-length blob, two concurrent uploads of one blob with the first one's queue.Set held), " +
 		"per-blob fault plans on source fetch (error, wrong size, corrupt bytes), destination write (error, wrong size), queue.Set / queue.Delete (error), crashes at chosen points (before queue.Set, before the destination write, before queue.Delete, before a fetch) and at random moments, restarts over the same queue, " +
 		"then faults stop and the handler must drain; one scenario with more than 1000 pending blobs (two copy batches); traces are replayed on the model, snapshots compared; ListMissingDestinationBlobs on random sorted enumerations; non-trivial = distinct trace with at least one fault or crash, or a merge with both missing and present blobs"
 	nScen := c.n(40, 400)
@@ -466,8 +470,12 @@ func c19Scenario(c *ctx, si int, big bool) {
 	if big {
 		nb = 1100
 	}
+	emptyAt := c.rng.Intn(2 * nb) // about every second scenario has the empty blob somewhere
 	for i := 0; i < nb; i++ {
 		content := fmt.Sprintf("blob %d of scenario %d seed %d", i, si, c.seed)
+		if !big && i == emptyAt {
+			content = "" // the zero-length blob is a blob like any other
+		}
 		b := &c19blob{id: i + 1, ref: blob.RefFromString(content), content: content}
 		ct.blobs = append(ct.blobs, b)
 		ct.byRef[b.ref] = b
